@@ -35,6 +35,7 @@ def _cases(tier, rng):
     yield {'kind': 'mux', 'term': [['split', ['floordiv', 2], [['scan', ['add'], 7, True, ['neg']]]]], 'items': [0, 1, 2, 3, 4]}
     yield {'kind': 'mux', 'term': [['group_by', ['mod', 2], [['scan', ['append_fst'], {'t': [{'l': []}, 0]}, True, None]]]], 'items': [1, 2, 3, 4, 5]}
     yield {'kind': 'mux', 'term': [['roll', 2, 2, [['scan', ['append_fst'], {'t': [{'l': []}, 0]}, True, None]]]], 'items': [1, 2, 3, 4, 5]}
+    yield {'kind': 'mux', 'term': [['scan', ['add'], 0, False, None], ['scan', ['add'], 0, False, None]], 'items': [1, 2, 3, 4], 'two_stores': 1}
     n = {'quick': 1500, 'thorough': 10000, 'search': 600}[tier]
     for _ in range(n):
         r = rng.random()
@@ -57,6 +58,11 @@ def _cases(tier, rng):
         ctx = rng.choice(['top', 'top', 'plain', 'group', 'group', 'roll', 'split', 'roll_group'])
         if ctx == 'top':
             yield {'kind': 'mux', 'term': sts, 'items': items}
+            if r < 0.35 and rng.random() < 0.3:
+                # two scans in sequence, under one store and under two stores in sequence (each scan then holds state #0 of ITS store)
+                two = sts + [scan_terms(rng)]
+                yield {'kind': 'mux', 'term': two, 'items': items}
+                yield {'kind': 'mux', 'term': two, 'items': items, 'two_stores': 1}
         elif ctx == 'plain':
             if any(s[0] == 'scan' and s[1] == ['append'] for s in sts):
                 continue
